@@ -429,12 +429,22 @@ func genCFFGlyph(t *tape.Tape, name string, integer bool) *cff.Glyph {
 			}
 		}
 	}
-	if t.Chance(1, 3) {
+	many := 0
+	if t.Chance(1, 25) {
+		many = t.Range(20, 96) // the format allows up to 96 stem hints
+	}
+	if many > 0 || t.Chance(1, 3) {
 		y := float64(t.Range(-100, 600))
-		for i := t.Range(1, 3); i > 0; i-- {
+		for i := max(t.Range(1, 3), many); i > 0; i-- {
 			h := float64(t.Range(10, 120))
+			if many > 0 {
+				h = float64(t.Range(1, 6))
+			}
 			g.HStem = append(g.HStem, y, y+h)
 			y += h + float64(t.Range(1, 200))
+			if many > 0 {
+				y -= 190
+			}
 		}
 	}
 	if t.Chance(1, 3) {
